@@ -97,7 +97,7 @@ def confirm(src, prop, name):
 
 
 def prepare_worktree():
-    wt = "/tmp/w-seed/repo"
+    wt = os.environ.get("SEED_WT", "/tmp/w-seed/repo")
     head = subprocess.run("git -C %s rev-parse HEAD" % REPO, shell=True, capture_output=True, text=True).stdout.strip()
     if not os.path.isdir(wt):
         rc, out = sh("git -C %s worktree add --detach %s HEAD" % (REPO, wt))
